@@ -979,6 +979,13 @@ func (in *Interp) checkAlloc(fr *frame, instr *ssa.MakeSlice, ln *smt.Term) {
 		}
 		panic(pathEnd{"violation", v.Msg})
 	}
+	// The obligation "length <= limit" is now decided at this site for EVERY length. Executions that allocate more
+	// than the enumeration bound cannot be followed (slice lengths are concrete); under an AllocLimit they are cut here
+	// and the cut is recorded, instead of making the whole run inconclusive.
+	if in.branch(in.cmpConst(ln, ">", int64(in.cfg.AllocBound)), "alloc-limit:beyond-enumeration") {
+		in.res.Assumptions = appendUniq(in.res.Assumptions, fmt.Sprintf("under vf.AllocLimit: after the allocation-size obligation is decided at a make site, executions allocating more than %d elements there are not followed further", in.cfg.AllocBound))
+		panic(pathEnd{"cut", "allocation beyond enumeration bound (limit obligation already decided)"})
+	}
 }
 
 // ---------------------------------------------------------------- maps
@@ -1442,8 +1449,20 @@ func (in *Interp) callBuiltin(caller *frame, fn *ssa.Builtin, args []value) valu
 			var lt *smt.Term
 			if x.S.K == smt.KInt {
 				lt = c.ILt(x, y)
+			} else if x.S.K == smt.KBV {
+				signed := true
+				if sg, ok := fn.Type().(*types.Signature); ok && sg.Params().Len() > 0 {
+					if b, ok := sg.Params().At(0).Type().Underlying().(*types.Basic); ok && b.Info()&types.IsUnsigned != 0 {
+						signed = false
+					}
+				}
+				if signed {
+					lt = c.BVSlt(x, y)
+				} else {
+					lt = c.BVUlt(x, y)
+				}
 			} else {
-				in.unsupported("min/max in bv mode")
+				in.unsupported("min/max on non-integer operands")
 			}
 			if fn.Name() == "min" {
 				r = c.Ite(lt, x, y)
